@@ -17,7 +17,7 @@ RESERVED = {'@font-face': 'FONT_FACE_SYM', '@import': 'IMPORT_SYM', '@media': 'M
 STR_EXTRA = ['\t', ' ', '\x00', '\x0b', '\x7f', '\x80', 'é', 'K', '€', '\U0001F600', '\U0010FFFF', '/', '*', '(', ')']
 URI_PLAIN = [chr(c) for a, b in ((33, 33), (35, 38), (40, 40), (42, 91), (93, 126)) for c in range(a, b + 1)]
 HEXQ = '0123456789abcdefABCDEF?'
-CMT_EXTRA = ['\n', '\r', '\f', '\t', ' ', '/', '/', '\\', '"', "'", 'é', '\U0001F600', '<!--', '-->', '@', '{']
+CMT_EXTRA = ['\n', '\r', '\f', '\t', ' ', '/', '/', '\\', '"', "'", 'é', '\U0001F600', '<!--', '-->', '@', '{', '*', '*', '**', '/*']
 
 
 def _digits(rng):
@@ -88,7 +88,10 @@ def g_lexeme(rng):
         return 'ur,%s,%s' % (enc(u), enc(h)), u + '+' + h, ('UNICODE-RANGE', u + '+' + h)
     if k == 'cmt':
         pool = list(LETTERS) + CMT_EXTRA
-        body = ''.join(rng.choice(pool) for _ in range(rng.randint(0, 8)))
+        while True:
+            body = ''.join(rng.choice(pool) for _ in range(rng.randint(0, 8)))
+            if '*/' not in body + '*':       # Lex2.WF: firstClose (body ++ "*") = none
+                break
         return 'cmt,%s' % enc(body), '/*' + body + '*/', ('COMMENT', '/*' + body + '*/')
     return 'cdc', '-->', ('CDC', '-->')
 
